@@ -145,25 +145,24 @@ example :
     (step w (.lookup (1000 + 2 * SEC) ['a', '.', '2', '8', '|', 'u'] false)).2.view = none := by
   decide
 
-/-- **Truthful TTL.**  Along any history whose clock never goes backwards, the TTL written into a
-fresh answer exceeds the whole seconds still left on its deadline (at least 1: a live answer is
-never shown with TTL 0 through rounding) by at most `ttlRefreshThresholdSeconds = 15`. -/
-theorem fresh_ttl_within_slack (c0 : Cfg) (t0 : Int) (ops : List Op) (hm : Mono t0 ops) (now : Int)
-    (hnow : lastTime t0 ops ≤ now) (key : Key) (ign : Bool) (sv : Served)
+/-- **Truthful TTL.**  Whatever the history and whatever the clock does, the TTL written into a fresh
+answer exceeds the whole seconds still left on its deadline (at least 1: a live answer is never shown
+with TTL 0 through rounding) by at most `ttlRefreshThresholdSeconds = 15`.  (Pre-packed bytes are
+handed out only when their TTL passes this test at the moment of the lookup; otherwise the answer is
+re-packed or built with the exact TTL.) -/
+theorem fresh_ttl_within_slack (c0 : Cfg) (ops : List Op) (now : Int) (key : Key) (ign : Bool) (sv : Served)
     (h : (step (run (start c0) ops).1 (.lookup now key ign)).2 = .hit sv) (hs : sv.stale = false) :
     sv.ttl ≤ max 1 ((sv.src.t + sv.src.eff * SEC - now) / SEC).toNat + SLACK := by
   obtain ⟨e0, hf, hl⟩ := step_lookup_hit h
-  have hm' := find_mem hf
-  have hok := run_Ok ops t0 (start c0) hm (AllE_empty _) _ hm'
-  obtain ⟨hb, hsrc, _⟩ := fresh_ttl_bound hok hnow hl hs
-  rw [hsrc, ← hok.dl]; exact hb
+  have hS : OkS key e0 := run_OkS ops (start c0) (AllE_empty _) _ (find_mem hf)
+  obtain ⟨hb, hsrc⟩ := fresh_ttl_bound_any_clock hS.dn hl hs
+  rw [hsrc, ← hS.dl]; exact hb
 
 /-- the same in nanoseconds: shown TTL ≤ remaining lifetime (rounded up to 1 s when shorter) + 15 s -/
-theorem fresh_ttl_within_slack_nanos (c0 : Cfg) (t0 : Int) (ops : List Op) (hm : Mono t0 ops) (now : Int)
-    (hnow : lastTime t0 ops ≤ now) (key : Key) (sv : Served)
+theorem fresh_ttl_within_slack_nanos (c0 : Cfg) (ops : List Op) (now : Int) (key : Key) (sv : Served)
     (h : (step (run (start c0) ops).1 (.lookup now key false)).2 = .hit sv) (hs : sv.stale = false) :
     (sv.ttl : Int) * SEC ≤ max (sv.src.t + sv.src.eff * SEC - now) SEC + (SLACK : Int) * SEC := by
-  have := fresh_ttl_within_slack c0 t0 ops hm now hnow key false sv h hs
+  have := fresh_ttl_within_slack c0 ops now key false sv h hs
   simp only [SEC, SLACK] at *
   omega
 
